@@ -128,6 +128,12 @@ impl Vtx {
         let year = reader.read_u16::<LittleEndian>()?;
         let decompressed_frames_size = reader.read_u32::<LittleEndian>()?;
 
+        if player_frequency == 0 {
+            return Err(VtxError::InvalidHeader {
+                message: "Invalid player frequency",
+            });
+        }
+
         if decompressed_frames_size % AY_REGISTER_COUNT as u32 != 0 {
             return Err(VtxError::InvalidHeader {
                 message: "Invalid decompressed frames data size",
